@@ -167,9 +167,13 @@ func (a *AST) ToDFA() *auto.DFA {
 	// Initialize Dstates to contain only the firstpos(n0), where n0 is the root of syntax tree for (r)µ
 	Dstates.Enqueue(a.Root.firstPos())
 
+	// The end-marker is told apart by its position, which is the last one, and not by its character:
+	// a regular expression may itself contain the character that serves as the end-marker.
+	endPos := a.lastPos
+
 	for S, i := Dstates.Dequeue(); i >= 0; S, i = Dstates.Dequeue() {
-		for c := range a.charToPos { // for each input symbol c
-			if c != endMarker {
+		for c, poses := range a.charToPos { // for each input symbol c
+			if len(poses) > 1 || poses[0] != endPos { // the end-marker itself is not an input symbol
 				// Let U be the union of followpos(p) for all p in S that correspond to c
 				U := Poses{}
 				for _, p := range S {
@@ -193,11 +197,9 @@ func (a *AST) ToDFA() *auto.DFA {
 	dfa.Final = auto.NewStates()
 
 	for i, S := range Dstates.Values() {
-		for _, f := range a.charToPos[endMarker] {
-			if S.Contains(f) {
-				dfa.Final.Add(auto.State(i))
-				break // The accepting states of D are all those sets of positions that include the position of the end-marker
-			}
+		// The accepting states of D are all those sets of positions that include the position of the end-marker
+		if S.Contains(endPos) {
+			dfa.Final.Add(auto.State(i))
 		}
 	}
 
